@@ -504,6 +504,7 @@ func (d *PerRequest) Request(input []byte) *Obs {
 		}
 		if d.Cfg.FuncUsesStore {
 			d.Res.Store = store
+			d.Res.StoreLists = d.B.Kind == "fs" || d.B.Kind == "fsbin"
 		}
 		if d.Cfg.PersisterContent && !useShared {
 			ca := cache.NewCache()
